@@ -3,6 +3,7 @@ CONSTANTS
   Handles = {"h1", "h2"}
   ProcOf <- ProcSame
   Writers = {"w1"}
+  Foreign = {"f1"}
   MaxCommits = 1
   MaxOps = 2
 VIEW view
